@@ -146,6 +146,8 @@ class CallMixin:
             self.raise_exc(st, "TypeError", node)
             return []
         c = self.contracts.get(info.key)
+        if info.is_generator and not (self.cur_func is info and self.depth == 0):
+            return self.call_generator(info, env, st, node)
         verifying_self = (self.cur_func is info and self.depth == 0)
         if c is not None and c.use_at_calls and not (
                 verifying_self and not c.recursive_ok):
@@ -531,7 +533,18 @@ class CallMixin:
     def b_divmod(self, args, kws, st, node):
         a, b = args
         self.need_nonzero(b, st, node)
+        if is_z3(b) and not z3.is_int_value(b) and not z3.is_rational_value(b):
+            return self.sym_divmod(a, b, st)
         return (py_floordiv(a, b), py_mod(a, b))
+
+    def b_spec_local(self, args, kws, st, node):
+        loc = self.exit_locals
+        if loc is None or args[0] not in loc:
+            # unbound at this exit: an arbitrary value (a clause that depends on it
+            # on such a path cannot be proved, which is the sound outcome)
+            self.fresh_n += 1
+            return z3.Int("unbound_%s!%d" % (args[0], self.fresh_n))
+        return loc[args[0]]
 
     def b_min(self, args, kws, st, node):
         vals = args if len(args) > 1 else self.iter_concrete(args[0], st)
@@ -587,6 +600,10 @@ class CallMixin:
     def b_enumerate(self, args, kws, st, node):
         v = args[0]
         if isinstance(v, SeqC):
+            if getattr(v, "with_state", False):
+                q = SeqC(v.n, lambda k, s, v=v: (k, v.elem(k, s)), "enumerate")
+                q.with_state = True
+                return q
             return SeqC(v.n, lambda k, v=v: (k, v.elem(k)), "enumerate")
         if hasattr(v, "pyvc_enumerate"):
             return v.pyvc_enumerate(self, st)
